@@ -254,6 +254,7 @@ type pullStream struct {
 	ch     chan streamMsg
 	queue  []expect
 	closed bool
+	name   string // the name given in the Pull request: every change on the stream carries it
 	// established: the server-side subscription is known to exist. The Pull RPC returns before the handler
 	// has subscribed (as with real gRPC); a seeded stream proves it by delivering the seed, an updates_only
 	// stream only by delivering its first message: until then an update may legitimately be missed.
@@ -330,6 +331,8 @@ type session struct {
 	multiWrite bool
 	// keyedOpen, when set, adds the item key to the Pull request and returns the acceptor's open line prefix
 	keyedOpen func(req protoreflect.Message) string
+	// names (rows with aliases, see rowNames): the names the router knows the device under
+	names []string
 }
 
 func txt(m proto.Message) string {
@@ -385,6 +388,17 @@ func (s *session) violate(class, what, expected, observed string) string {
 	s.mon.Violate(sig, what, s.input(s.step+1), expected, observed)
 	s.failed = true
 	return "reject:" + class
+}
+
+// reqName: the device name this request carries. On rows whose router knows the device under several names (rowNames)
+// every request picks one: the register is the same under each of them, and a stream's changes carry the name of ITS
+// Pull request.
+func (s *session) reqName() string {
+	if len(s.names) == 0 {
+		return devName
+	}
+	s.mon.Count("request-under-alias")
+	return s.names[s.r.Intn(len(s.names))]
 }
 
 func (s *session) call(method string, req proto.Message) (out []reflect.Value, panicMsg string) {
@@ -460,7 +474,7 @@ func (s *session) doGet(mask *fieldmaskpb.FieldMask) {
 // prepGet builds a Get request; finishGet judges its outcome against the register as it is when the outcome is judged.
 func (s *session) prepGet(mask *fieldmaskpb.FieldMask) (proto.Message, string) {
 	req := newMsg(s.t.get.Input())
-	setStr(req, "name", devName)
+	setStr(req, "name", s.reqName())
 	setMask(req, "read_mask", mask)
 	op := fmt.Sprintf("Get%s(read_mask=%v)", s.t.X, paths(mask))
 	reportProgress(progress{Sid: s.sid, Step: s.step, Op: op, Trace: tailTrace(s.trace, 12)})
@@ -545,7 +559,7 @@ func (s *session) prepUpdate() (proto.Message, proto.Message, string) {
 			req.Clear(fd)
 		}
 	}
-	setStr(req, "name", devName)
+	setStr(req, "name", s.reqName())
 	pf := payloadField(s.t.update.Input(), s.t.resource)
 	payload := s.g.Message(newMsg(s.t.resource).Type())
 	stripTweens(payload.ProtoReflect())
@@ -628,12 +642,12 @@ func (s *session) recvOne(i int, m streamMsg) {
 	default:
 		st.queue = st.queue[1:]
 		st.established = true
-		if m.name != devName {
-			v = s.violate("Pull/wrong-name", "a change on a Pull stream does not carry the name given in the Pull request", devName, m.name)
+		if m.name != st.name {
+			v = s.violate("Pull/wrong-name", "a change on a Pull stream does not carry the name given in the Pull request", st.name, m.name)
 		}
 	}
 	nameok := 1
-	if m.name != devName {
+	if m.name != st.name {
 		nameok = 0
 	}
 	s.obs(fmt.Sprintf("recv %d %d %d", i, s.id(m.val), nameok), v)
@@ -727,7 +741,8 @@ func (s *session) doPullWith(mask *fieldmaskpb.FieldMask, uo bool) {
 // turns the responses into streamMsgs. It returns nil and the failure if the call failed.
 func (s *session) openStream(mask *fieldmaskpb.FieldMask, uo bool, prep func(req protoreflect.Message)) (st *pullStream, op, failure string) {
 	req := newMsg(s.t.pull.Input())
-	setStr(req, "name", devName)
+	reqName := s.reqName()
+	setStr(req, "name", reqName)
 	setMask(req, "read_mask", mask)
 	if prep != nil {
 		prep(req)
@@ -747,7 +762,7 @@ func (s *session) openStream(mask *fieldmaskpb.FieldMask, uo bool, prep func(req
 		return nil, op, pm + fmt.Sprint(out)
 	}
 	stream := out[0]
-	st = &pullStream{mask: mask, maskID: s.maskID(mask), uo: uo, cancel: cancel, ch: make(chan streamMsg, 64)}
+	st = &pullStream{mask: mask, maskID: s.maskID(mask), uo: uo, cancel: cancel, ch: make(chan streamMsg, 64), name: reqName}
 	recv := stream.MethodByName("Recv")
 	pullOut := s.t.pull.Output()
 	go func() {
@@ -835,7 +850,7 @@ func (s *session) drainSeed(i int) {
 			st.queue = nil
 			s.trace = append(s.trace, stepDesc{s.step, fmt.Sprintf("stream#%d recv", i), fmt.Sprintf("name=%q %s", m.name, txt(m.val))})
 			nameok := 1
-			if m.name != devName {
+			if m.name != st.name {
 				nameok = 0
 			}
 			s.obs(fmt.Sprintf("recv %d %d %d", i, s.id(m.val), nameok),
@@ -903,6 +918,7 @@ func runSession(t triple, sid sessionID, mon *lib.Monitor) (lines, verdicts []st
 		g = &gate{}
 		cl, model = mk(g), nil
 	}
+	s.names = rowNames[t.Row.rowKey()]
 	s.client = reflect.ValueOf(cl)
 	s.pokes = pokeMethods(model, t.resource)
 	s.singleItem = sid.Seq%2 == 1
@@ -1067,7 +1083,7 @@ func (s *session) doPoke() {
 	s.mon.Count("poke-ok")
 	// read the new value back
 	req := newMsg(s.t.get.Input())
-	setStr(req, "name", devName)
+	setStr(req, "name", s.reqName())
 	gout, pm := s.call("Get"+s.t.X, req.Interface())
 	if pm != "" || gout[1].Interface() != nil {
 		s.trace = append(s.trace, stepDesc{s.step, op, "Get after the write failed"})
